@@ -239,7 +239,7 @@ def gen_program(rng, size: int = 10, with_args: bool = True) -> list:
                 emit({"op": "split", "args": [i]}, _V("tensor", vs[i].dt, shp, vs[i].const),
                      _V("tensor", vs[i].dt, shp, vs[i].const))
         elif choice == "unique":
-            i = pick(lambda v: is_num(v) and len(v.shape) == 1 and v.const)
+            i = pick(lambda v: v.kind == "tensor" and v.dt in ("i64", "f32") and len(v.shape) == 1 and v.const)
             if i is not None:
                 # shapes of Unique's outputs depend on the data: leave them to the library
                 emit({"op": "unique", "args": [i]}, *[_V("opaque", None, None, True) for _ in range(4)])
